@@ -6,9 +6,9 @@ package hx
 import (
 	"bytes"
 	"encoding/json"
-	"sort"
 	"errors"
 	"fmt"
+	"sort"
 	"strings"
 
 	gobinlog "github.com/Breeze0806/gobinlog"
@@ -60,6 +60,11 @@ type Mapper struct {
 	FailAt     int
 	MismatchAt int
 	Calls      []MapperCall
+	// Versions, when set for a name, are the successive definitions of that
+	// table: the j-th lookup of the name (0-based) is answered with version
+	// min(j, last) (a schema that changes while the stream runs).
+	Versions map[string][]*ref.Table
+	lookups  map[string]int
 }
 
 // NewMapper builds a mapper knowing the given tables.
@@ -83,6 +88,17 @@ func (m *Mapper) MysqlTable(name gobinlog.MysqlTableName) (gobinlog.MysqlTable, 
 		return nil, ErrMapper
 	}
 	t := m.Tables[name.DbName+"."+name.TableName]
+	if vs := m.Versions[name.DbName+"."+name.TableName]; len(vs) > 0 {
+		if m.lookups == nil {
+			m.lookups = map[string]int{}
+		}
+		j := m.lookups[name.DbName+"."+name.TableName]
+		m.lookups[name.DbName+"."+name.TableName] = j + 1
+		if j >= len(vs) {
+			j = len(vs) - 1
+		}
+		t = vs[j]
+	}
 	if t == nil {
 		call.Result = "error"
 		return nil, fmt.Errorf("unknown table %s.%s", name.DbName, name.TableName)
@@ -122,12 +138,12 @@ type EvSnap struct {
 
 // TxSnap is a deep copy of a Transaction.
 type TxSnap struct {
-	NowFile  string
-	NowPos   int64
-	NextFile string
-	NextPos  int64
-	TS       int64
-	Events   []EvSnap
+	NowFile   string
+	NowPos    int64
+	NextFile  string
+	NextPos   int64
+	TS        int64
+	Events    []EvSnap
 	NilEvents bool
 }
 
